@@ -890,7 +890,9 @@ def _containers(lc):
     ihd = z3.ForAll([x], z3.Implies(z3.And(M.has(K, x), M.has(v, x), M.dget(v, x) != M.EllV,
                                            z3.Not(subraises(M.lat(M.dget(K, x), 0), M.dget(v, x), kw))),
                                     member_ih(M.lat(M.dget(K, x), 0), M.dget(v, x), kw)), patterns=[M.has(K, x)])
-    hyp = base + list(S.reach_def(ct, "DictSchema", Sx)) + [dict_fact(ct, Sx, v, kw, R), ihd]
+    from .relaxed import rconforms_def
+    hyp = base + list(S.reach_def(ct, "DictSchema", Sx)) + [dict_fact(ct, Sx, v, kw, R), ihd,
+                                                         V.rvalid(Sx, v) == rconforms_def(ct, "DictSchema", Sx, v)]
     inp = {"schema": Sx, "value": v, "w": w}
     lc.oblige("dict:narrows-and-pins", hyp, _goal_narrow_pins(ct, "DictSchema", Sx, v, R, w), inp, {"cls": "DictSchema"},
               text="every value accepted by dict % v is accepted by the dict schema and carries v on every key given")
@@ -921,7 +923,8 @@ def _containers(lc):
         ih_window(bodyc, 1, mE - 2), ih_window(headc, 0, mE - 1), ih_window(tailc, 1, mE - 1), ih_window(exactc, 0, mE))
     hb1, hb2 = M.fresh("hint", M.B), M.fresh("hint", M.B)
     hints = [hb1 == S.window_ok(E, 1, mE - 2, w, s0c), hb2 == S.window_ok(E, 1, mE - 2, v, s0c)]   # name the window terms
-    hyp = base + list(S.reach_def(ct, "ListSchema", Sx)) + [list_fact(ct, Sx, v, kw, R, skolem=s0c), ihl] + hints
+    hyp = base + list(S.reach_def(ct, "ListSchema", Sx)) + [list_fact(ct, Sx, v, kw, R, skolem=s0c), ihl] + hints + \
+        [V.rvalid(Sx, v) == rconforms_def(ct, "ListSchema", Sx, v)]      # (established by the verified relaxed validator)
     inp = {"schema": Sx, "value": v, "w": w}
     cases = [("untyped", z3.And(E == M.NilV, Ty == M.NilV)), ("typed", Ty != M.NilV),
              ("contains", z3.And(Ty == M.NilV, E != M.NilV, bodyc)), ("head", z3.And(Ty == M.NilV, E != M.NilV, headc)),
